@@ -716,7 +716,8 @@ example :
 
 FULL statement (not proved): `never_wrong_body` / `at_most_once_per_transfer` for the composed system including
 everything the real endpoints do.  What is missing in the two theorems below: responses the APPLICATION builds when a
-follow-up Block2 request finds no lg_xmit, and bodies that fit one message (the models generate no message there); the
+follow-up Block2 request finds no lg_xmit, and RESPONSE bodies that fit one message (the Block2 model generates no message
+there; request bodies that fit one message are modelled since round R09); the
 computation of `adlBody`'s parameters on the response path (hypothesis `B2ParOK`, satisfied on the request path:
 `first_block_genuine`); per-block mode on the server; several transfers at once; retransmission timers, message ids and
 tokens (abstracted: the schedule picks any datagram ever sent, any number of times, in any order). -/
@@ -726,7 +727,8 @@ time-outs of the server's lg_xmit and of the client's lg_crcv at any moment, an 
 request) or only by the first response (CON), any number of lg_xmit incarnations (each
 with a fresh ETag, possibly with a different block size) — without ANY hypothesis on the datagrams: whatever the
 client's response handler is given is the server's body (single-body mode: exactly, with its exact length) or an
-exact slice of it at the announced offset (per-block mode), and a block response is never passed on as a plain one. -/
+exact slice of it at the announced offset (per-block mode), and a block response is never passed on as a plain one.
+Since round R09 every response arrival carries the `sent` flag of coap_handle_response_get_block (chosen by the schedule). -/
 theorem never_wrong_body_block2_composed_partial (P : B2Par) (hP : B2ParOK P) (evs : List B2Event) :
     ∀ o, o ∈ (evs.foldl (b2Step P) {}).outs →
       (∀ d l, o = CrcvOut.body d l → P.single = true ∧ d.take l = P.body ∧ l = P.body.length) ∧
@@ -808,7 +810,8 @@ sizes (the client's initial one — only for block 0 — or the one the transfer
 size; the lg_xmit is well formed (`XmitInv`) in one of the two sizes; the lg_srcv is consistent with the body (`SrcvInv`)
 and tracks it in the settled size.  So the hypotheses of `never_wrong_body_partial` (slice, SZX not below the tracked
 one) and of `client_block1_genuine_partial` (no larger size asked for) are discharged.
-Not in the model (see the section header): bodies that fit one message, two lg_srcvs at once (`request_tag_…`), per-block
+Since round R09 a body that fits ONE message is in the model too (`adlNoBlock`; `ReqOK` = `ReqBlk` ∨ `ReqSingle`).
+Still not in the model, hence still `_partial` (see the section header): two lg_srcvs at once (`request_tag_…`), per-block
 mode on the server, timers / message ids / tokens; body < 2^31 bytes. -/
 theorem never_wrong_body_block1_composed_partial (P : B1Par) (hP : B1ParOK P) (evs : List B1Event) :
     ∀ o, o ∈ (evs.foldl (b1Step P) {}).outs → ∀ b l, o = SrcvOut.deliver b l → b = P.body ∧ l = P.body.length :=
@@ -1058,6 +1061,49 @@ example :
     let evs : List B2Event := [.appGet 0, .reqArrives 0, .rspArrives 0 true, .reqArrives 1, .rspArrives 1 true,
       .reqArrives 2, .rspArrives 2 true, .rspArrives 0 true, .rspArrives 1 true, .rspArrives 2 true]
     ((evs.foldl (b2Step (exPar true)) {}).outs.filter fun o => o.isFinal).length = 2 := by
+  decide +kernel
+
+/-- PER-BLOCK mode, composed system, EVERY schedule (ghost `seen` = the block numbers handed to the response handler since
+the client's lg_crcv was last set up or restarted, `b2StepS`; it is exactly the set the lg_crcv has recorded, `B2SeenInv`):
+a block handed to the handler was not handed over before in this lifetime — duplicates and replays of any response datagram,
+of any lg_xmit incarnation, matched or not, never reach the handler twice — and when the completing block is handed over every
+other block of the body has been: per lifetime the handler gets each block at most once and, at completion, all of them.
+No hypothesis on the datagrams (`per_block_tiles_once_partial` needed `Admissible2`; `B2Inv` supplies it here). -/
+theorem per_block_tiles_once_composed (P : B2Par) (hP : B2ParOK P) (hs : P.single = false) (evs : List B2Event) (j : Nat)
+    (sent : Bool) (r : Resp) :
+    let ss := evs.foldl (b2StepS P) ({}, [])
+    ss.1.rsps[j]? = some r →
+    (∀ off p t nx, (crcvStepS sent P.single P.cap P.junk ss.1.cli r).2 = CrcvOut.block off p t nx → numOf r ∉ ss.2) ∧
+    (∀ off p t, (crcvStepS sent P.single P.cap P.junk ss.1.cli r).2 = CrcvOut.last off p t →
+      numOf r ∉ ss.2 ∧ ∀ k, k < nBlocks P.body.length (szxOfR r) → k = numOf r ∨ k ∈ ss.2) := by
+  intro ss hq
+  obtain ⟨hinv, hG⟩ := b2RunS_inv P hP hs evs ({}, []) (b2_init_inv P)
+    (by intro k; simp [effRecv, covers_nil])
+  rw [hs]
+  rcases crcvStepS_cases sent false P.cap P.junk ss.1.cli r with he | ⟨_, _, he⟩
+  · rw [he]
+    obtain ⟨num, szx, hg⟩ := b2_genuine P ss.1 r (List.mem_of_getElem? hq) hinv
+    have hst : ∀ c, ss.1.cli = some c → c.initial = false → CrcvInv false P.cap P.body (some P.body.length) c := by
+      intro c hc hi
+      have := (hinv.cli c hc hi).1
+      rw [hs] at this
+      exact this
+    obtain ⟨a, b, _⟩ := tiles_step P.cap P.junk P.body (some P.body.length) (by intro t ht; cases ht; exact Nat.le_refl _)
+      ss.1.cli ss.2 r num szx hst hG hg
+    exact ⟨a, b⟩
+  · rw [he]
+    cases r.blk with
+    | none => exact ⟨fun _ _ _ _ h => (by cases h), fun _ _ _ h => (by cases h)⟩
+    | some b => exact ⟨fun _ _ _ _ h => (by cases h), fun _ _ _ h => (by cases h)⟩
+
+/-- the ghost along a concrete per-block run: block 1 duplicated, then a stray unmatched copy of block 0 after completion -/
+example :
+    let evs : List B2Event := [.appGet 0, .reqArrives 0, .rspArrives 0 true, .reqArrives 1, .rspArrives 1 true,
+      .rspArrives 1 false]
+    let s := (evs ++ [B2Event.reqArrives 2, B2Event.rspArrives 2 true, B2Event.rspArrives 0 false]).foldl (b2StepS (exPar false)) ({}, [])
+    (evs.foldl (b2StepS (exPar false)) ({}, [])).2 = [1, 0] ∧ s.2 = [] ∧ s.1.cli = none ∧
+    s.1.outs.map (fun o => match o with | CrcvOut.block off _ _ _ => off + 1 | CrcvOut.last off _ _ => off + 1 | _ => 0) =
+      [1, 17, 0, 33, 0] := by
   decide +kernel
 
 /-! ## Client: what the application's handlers see of a transfer libcoap runs under tokens of its own
